@@ -48,6 +48,9 @@ ALPHA = [
     dict(via='give_partial', muted=False),
     dict(category='runtime', message=''),
     dict(category='instructor', message='', title='Blank'),
+    dict(category='instructor', label='L', fields={'x': 1, 'y': 2}),
+    dict(category='instructor', label='L', fields={'x': 2, 'y': 2}),
+    dict(category='instructor', label='L', fields={'x': 1, 'y': 3}),
     dict(category='algorithmic', message_template='{empty}', fields={'empty': ''}, message=None),
     dict(category='instructor', unscored=True),
 ]
@@ -69,6 +72,8 @@ for _cat in ('instructor', 'runtime', 'complete'):
 SUPSETS = [[], [('runtime', True, None)], [('instructor', True, None)], [(None, 'L', None)],
            [('instructor', 'l', None)], [('algorithmic', True, None), ('syntax', True, None)],
            [('specification', True, None)], [('mistakes', True, None), ('complete', True, None)],
+           # suppression by several fields: every one of them has to agree
+           [('instructor', 'L', {'x': 1, 'y': 2})], [(None, 'L', {'y': 2, 'x': 1})],
            # the documented aliases of tool names, in the spellings an instructor may type
            [('Analyzer', True, None)], [('PARSER', True, None)], [('analyzer', True, None), ('Verifier', True, None)]]
 
